@@ -45,6 +45,10 @@ func (c *c19Conn) Usable() bool {
 	if c.closeCount > 0 {
 		r.violate("C19/closed-conn-in-pool", fmt.Sprintf("conn %d was closed %d time(s) and is still in a bucket", c.id, c.closeCount))
 	}
+	if c.owner >= 0 {
+		// one owner at a time: the pool talks on a connection (its usability probe) while a worker holds it
+		r.violate("C19/two-owners", fmt.Sprintf("pool code probes conn %d (Usable) while worker %d holds it", c.id, c.owner))
+	}
 	vcoop.Point("us", c.id)
 	return c.usable
 }
@@ -65,11 +69,43 @@ func (c *c19Conn) Close() error {
 	return nil
 }
 
+// c19Ctx is the context of one worker (a delivery has one for its whole life).  The schedule decides when it is
+// done (entry "x<w>"): cancelled, or — for the workers whose context carries a deadline — timed out.  Nothing
+// depends on the wall clock: the deadline is far away and never fires by itself.  Only one goroutine runs at a
+// time under vcoop, so the fields need no lock.
+type c19Ctx struct {
+	done     chan struct{}
+	err      error
+	deadline bool
+}
+
+var c19Far = time.Unix(1<<36, 0)
+
+func (c *c19Ctx) Deadline() (time.Time, bool) {
+	if c.deadline {
+		return c19Far, true
+	}
+	return time.Time{}, false
+}
+func (c *c19Ctx) Done() <-chan struct{}             { return c.done }
+func (c *c19Ctx) Err() error                        { return c.err }
+func (c *c19Ctx) Value(key interface{}) interface{} { return nil }
+func (c *c19Ctx) fire() {
+	if c.err != nil {
+		return
+	}
+	c.err = context.Canceled
+	if c.deadline {
+		c.err = context.DeadlineExceeded
+	}
+	close(c.done)
+}
+
 type c19Case struct {
 	maxKeys, maxConns int
 	maxLife, stale    int64
 	progs             [][]string // ops: g<k> r u d c s
-	sched             []string   // "<task>[:pick]" | "t<d>" | "b<c>"
+	sched             []string   // "<task>[:pick]" | "t<d>" | "b<c>" | "x<w>" (the context of worker w is cancelled / times out)
 	script            []string   // adaptive directives (generation only): the above, or "U<task>:<label prefix>"
 	style             string
 }
@@ -86,6 +122,9 @@ type c19Run struct {
 	chanKey   []int
 	shutDone  bool
 	shutCalls int
+	ctxs      []*c19Ctx
+	ctxErrs   int // Gets that came back with the error of their context
+	inGet     []bool
 
 	recvd       []int
 	closedOrder []int
@@ -151,13 +190,21 @@ func (r *c19Run) label(t *vcoop.Task) string {
 
 func (r *c19Run) worker(w int) func() {
 	return func() {
-		ctx := context.Background()
+		ctx := r.ctxs[w]
 		for _, op := range r.cs.progs[w] {
 			vcoop.Point("idle", nil)
 			switch op[0] {
 			case 'g':
 				k, _ := strconv.Atoi(op[1:])
+				r.inGet[w] = true
 				c, err := r.p.Get(ctx, c19Key(k))
+				r.inGet[w] = false
+				if err != nil && ctx.Err() != nil {
+					// the cancellation outcome of Get: the caller gets nothing (what became of a connection Get had
+					// already taken out of a bucket is the business of the end-of-run rules: held, idle, or closed)
+					r.ctxErrs++
+					continue
+				}
 				if err != nil || c == nil {
 					r.violate("C19/get-failed", fmt.Sprintf("Get returned (%v, %v)", c, err))
 					continue
@@ -315,6 +362,9 @@ func c19Run1(cs *c19Case, out *vh.Out) {
 	defer vcoop.Activate(nil)
 	r.p = New(Config{
 		New: func(ctx context.Context, key string) (Conn, error) {
+			if err := ctx.Err(); err != nil {
+				return nil, err // a dial under a context that is done fails
+			}
 			nk := -1
 			if len(key) > 1 {
 				nk, _ = strconv.Atoi(key[1:])
@@ -333,6 +383,11 @@ func c19Run1(cs *c19Case, out *vh.Out) {
 	r.held = make([][]*c19Conn, nw)
 	r.heldKey = make([][]int, nw)
 	r.returning = make([]*c19Conn, nw)
+	r.inGet = make([]bool, nw)
+	for w := 0; w < nw; w++ {
+		r.ctxs = append(r.ctxs, &c19Ctx{done: make(chan struct{}), deadline: w%2 == 1})
+	}
+	cancelAt := map[string]bool{}
 	for w := 0; w < nw; w++ {
 		t := r.s.Spawn("idle", r.worker(w))
 		t.SkipOne = "idle"
@@ -352,6 +407,22 @@ func c19Run1(cs *c19Case, out *vh.Out) {
 				r.conns[c].usable = false
 			}
 			entries, labels = append(entries, e), append(labels, "b")
+		case 'x':
+			w, _ := strconv.Atoi(e[1:])
+			if w >= 0 && w < nw {
+				if r.ctxs[w].err == nil {
+					at := "outside Get"
+					if r.inGet[w] {
+						at = r.label(r.s.Tasks[w])
+						if i := strings.Index(at, ":"); i >= 0 {
+							at = at[:i]
+						}
+					}
+					cancelAt[at] = true
+				}
+				r.ctxs[w].fire()
+			}
+			entries, labels = append(entries, e), append(labels, "x")
 		default:
 			i, _ := strconv.Atoi(strings.SplitN(e, ":", 2)[0])
 			en, lab, st := r.stepTask(i)
@@ -386,7 +457,7 @@ func c19Run1(cs *c19Case, out *vh.Out) {
 			if strings.HasPrefix(after, parts[1]) || r.s.Tasks[i].Done {
 				break
 			}
-			if after == before && strings.HasSuffix(after, ".lock") {
+			if after == before && r.s.Tasks[i].Waiting {
 				break
 			}
 		}
@@ -402,8 +473,8 @@ func c19Run1(cs *c19Case, out *vh.Out) {
 			alive = true
 			before := r.label(t)
 			exec(strconv.Itoa(i))
-			if l := r.label(t); l != before || !strings.HasSuffix(l, ".lock") {
-				progress = true // only a failed lock attempt leaves a goroutine where it was
+			if l := r.label(t); l != before || !t.Waiting {
+				progress = true // only a failed lock attempt (or a waiting select with no case ready) leaves a goroutine where it was
 			}
 		}
 		if !alive {
@@ -557,6 +628,12 @@ func c19Run1(cs *c19Case, out *vh.Out) {
 	}
 	if len(r.hands) > 0 {
 		out.Stat("case with pooled hand-out")
+	}
+	for at := range cancelAt {
+		out.Stat("case with context done while its worker is at " + at)
+	}
+	if r.ctxErrs > 0 {
+		out.Stat("case where Get returns the error of its context")
 	}
 	if len(r.recvd) > len(r.hands) {
 		out.Stat("case where Get discards a pooled conn (unusable or expired)")
@@ -836,10 +913,103 @@ func c19Perm(r *vh.Rng, n int) []int {
 	return p
 }
 
+// c19GenCancel: a bucket holds several idle connections (some of them broken or past their idle lifetime, so that
+// Get goes through its loop more than once); a Get for that key is stepped a chosen number of times — it is parked
+// at the lock, at the select, inside Usable(), or wherever a changed tree parks in between — and then its context is
+// cancelled (or times out); the others move on (another Get / a sweep / a shutdown), and the Get resumes.
+// Whatever Get returns, the connection it had taken out of the bucket must be held by the caller, idle, or closed.
+func c19GenCancel(r *vh.Rng) *c19Case {
+	cs := &c19Case{style: "scenario cancel"}
+	L := 1 + r.Intn(3)
+	cs.maxLife = int64(L)
+	cs.maxConns = 1 + r.Intn(3)
+	cs.maxKeys = 1 + r.Intn(3)
+	cs.stale = int64(L + 3 + r.Intn(4))
+	n := 1 + r.Intn(cs.maxConns)
+	var p0 []string
+	for i := 0; i < n; i++ {
+		p0 = append(p0, "g0")
+	}
+	if r.Chance(50) {
+		p0 = append(p0, "u")
+	}
+	for i := 0; i < n; i++ {
+		p0 = append(p0, "r")
+	}
+	nv := 1 + r.Intn(2)
+	cs.progs = [][]string{p0}
+	for v := 0; v < nv; v++ {
+		victim := []string{"g0"}
+		if r.Chance(30) {
+			victim = append(victim, "g0")
+		}
+		if r.Chance(60) {
+			victim = append(victim, "u", "r")
+		}
+		if r.Chance(30) {
+			victim = append(victim, "r")
+		}
+		cs.progs = append(cs.progs, victim)
+	}
+	other := -1
+	if r.Chance(50) {
+		other = len(cs.progs)
+		cs.progs = append(cs.progs, [][]string{{"g0", "r"}, {"c"}, {"g0"}, {"g1", "r"}}[r.Intn(4)])
+	}
+	closer := -1
+	if r.Chance(50) {
+		closer = len(cs.progs)
+		cs.progs = append(cs.progs, []string{"s"})
+	}
+	for i := 0; i < 3*n+2; i++ {
+		cs.script = append(cs.script, "U0:idle")
+	}
+	// some of the idle connections are broken / too old: Get closes them and goes on to the next one
+	if r.Chance(35) {
+		cs.script = append(cs.script, "b"+strconv.Itoa(r.Intn(n)))
+	}
+	switch {
+	case r.Chance(35):
+		cs.script = append(cs.script, "t"+strconv.Itoa(1+r.Intn(L)))
+	case r.Chance(25):
+		// the whole bucket is past its lifetime: Get drops it under the lock (close, drain) and asks for a new connection
+		cs.script = append(cs.script, "t"+strconv.Itoa(L+1))
+	}
+	for v := 1; v <= nv; v++ {
+		steps := []int{0, 1, 2, 2, 3, 3, 3, 4, 4, 5, 6, 7}[r.Intn(12)] // 0: the context is done before Get starts
+		for i := 0; i < steps; i++ {
+			cs.script = append(cs.script, strconv.Itoa(v))
+			if r.Chance(10) {
+				// the goroutines the Get has started meanwhile (a closer; a probe on a changed tree)
+				cs.script = append(cs.script, strconv.Itoa(len(cs.progs)+r.Intn(3)))
+			}
+		}
+		if v == 1 || r.Chance(70) {
+			cs.script = append(cs.script, "x"+strconv.Itoa(v))
+		}
+	}
+	if other >= 0 && r.Chance(70) {
+		cs.script = append(cs.script, "U"+strconv.Itoa(other)+":"+r.Pick("idle", "idle", "g.sel", "us", "c.drain", "r.sel"))
+	}
+	if r.Chance(25) {
+		cs.script = append(cs.script, "t"+strconv.Itoa(1+r.Intn(L+1)))
+	}
+	if closer >= 0 && r.Chance(60) {
+		cs.script = append(cs.script, "U"+strconv.Itoa(closer)+":"+r.Pick("idle", "idle", "s.lock", "s.drain"))
+	}
+	for v := 1; v <= nv; v++ {
+		cs.script = append(cs.script, "U"+strconv.Itoa(v)+":idle")
+	}
+	return cs
+}
+
 func c19Gen(r *vh.Rng) *c19Case {
 	if r.Chance(30) {
 		if r.Chance(25) {
 			return c19GenFullMap(r)
+		}
+		if r.Chance(25) {
+			return c19GenCancel(r)
 		}
 		return c19GenScenario(r)
 	}
@@ -884,12 +1054,16 @@ func c19Gen(r *vh.Rng) *c19Case {
 		total += len(p)
 	}
 	length := 10 + r.Intn(total*8+10)
+	// in one case out of six the contexts of some workers are cancelled / time out somewhere along the schedule
+	allowX := r.Chance(16)
 	envStep := func() (string, bool) {
 		switch {
 		case r.Chance(8):
 			return "t" + strconv.Itoa(1+r.Intn(3)), true
 		case r.Chance(3):
 			return "b" + strconv.Itoa(r.Intn(6)), true
+		case allowX && r.Chance(2):
+			return "x" + strconv.Itoa(r.Intn(nw)), true
 		}
 		return "", false
 	}
@@ -929,6 +1103,10 @@ func c19Gen(r *vh.Rng) *c19Case {
 				cs.sched = append(cs.sched, "t"+strconv.Itoa(1+r.Intn(3)))
 				continue
 			}
+			if allowX && r.Chance(2) {
+				cs.sched = append(cs.sched, "x"+strconv.Itoa(r.Intn(nw)))
+				continue
+			}
 			if delays[i] {
 				cur = (cur + 1) % ntasks
 				run = 0
@@ -950,6 +1128,11 @@ func c19Gen(r *vh.Rng) *c19Case {
 			phase := i * 4 / length
 			if r.Chance(10) {
 				cs.sched = append(cs.sched, "t"+strconv.Itoa(1+r.Intn(4)))
+				continue
+			}
+			if allowX && phase >= 1 && r.Chance(3) {
+				// the context of a parked Get is cancelled while the others move on
+				cs.sched = append(cs.sched, "x"+strconv.Itoa([]int{victim, victim2, r.Intn(nw)}[r.Intn(3)]))
 				continue
 			}
 			var t int
